@@ -38,6 +38,7 @@ EXTENDS Naturals, Sequences, FiniteSets, TLC, Json
 CONSTANTS NT,            \* templates in the universe (1..3)
           MaxBody,       \* items per template body
           Limit,         \* recursion_limit
+          FewPages,      \* TRUE: three pages only (a call, text + call, two calls) — for the larger universes
           Growth,        \* TRUE: doubling calls and block arguments are part of the alphabet
           BlockSize,     \* characters in the block "A"
           Cap,           \* 262144: the longest argument value
@@ -46,8 +47,9 @@ CONSTANTS NT,            \* templates in the universe (1..3)
           CapByName,     \* TRUE in the reference: the cap also guards arguments looked up by name ({{{1}}})
           Emit
 
-VARIABLES univ, page, stack, count, bufs, exc, log, started, escaped
-vars == <<univ, page, stack, count, bufs, exc, log, started, escaped>>
+VARIABLES univ, page, stack, count, bufs, exc, log, started, escaped,
+          capped         \* history: some argument outgrew the cap in this expansion (findings are keyed on it)
+vars == <<univ, page, stack, count, bufs, exc, log, started, escaped, capped>>
 
 Calls  == {"C1", "C2", "C3"}
 Dbls   == {"D1", "D2", "D3"}
@@ -61,7 +63,8 @@ BodiesOver(S, n) == {b \in UNION {[1..k -> S] : k \in 0..n} : Canonical(b)}
 TemplateItems == IF Growth THEN (IF NT = 1 THEN {"a", "P", "C1", "D1"} ELSE {"a", "P", "C1", "C2", "D1", "D2"}) ELSE {"a", "P", "C1", "C2", "C3"}
 PageItems == IF Growth THEN (IF NT = 1 THEN {"a", "C1", "S1"} ELSE {"a", "C1", "S1", "S2"}) ELSE {"a", "C1", "C2"}
 Bodies == BodiesOver(TemplateItems, MaxBody)
-Pages  == {b \in BodiesOver(PageItems, IF Growth THEN 2 ELSE 3) : Len(b) >= 1}
+Pages  == IF FewPages THEN {<<"C1">>, <<"a", "C1">>, <<"C1", "C2">>}
+          ELSE {b \in BodiesOver(PageItems, IF Growth THEN 2 ELSE 3) : Len(b) >= 1}
 
 \* size in characters of a value made of atoms; "E" is an inline error message
 AtomSize(x) == CASE x = "A" -> BlockSize [] x = "P" -> 7 [] x = "E" -> 70 [] OTHER -> 1
@@ -130,13 +133,13 @@ Put(b, v) == [bufs EXCEPT ![b] = @ \o v]
 Init == /\ univ \in [1..NT -> Bodies]
         /\ page \in Pages
         /\ stack = <<>> /\ count = 0 /\ bufs = <<<<>>>> /\ exc = "none" /\ log = <<>>
-        /\ started = FALSE /\ escaped = FALSE
+        /\ started = FALSE /\ escaped = FALSE /\ capped = FALSE
 
 \* flatten(str)
 Text == /\ exc = "none" /\ HasPending /\ IsText(Pending)
         /\ bufs' = Put(CurBuf, <<"a">>)
         /\ stack' = Advanced /\ started' = TRUE
-        /\ UNCHANGED <<univ, page, count, exc, log, escaped>>
+        /\ UNCHANGED <<univ, page, count, exc, log, escaped, capped>>
 
 \* flatten(node) below the limit: a new frame (and a new buffer for an argument)
 Enter == /\ exc = "none" /\ HasPending /\ ~IsText(Pending) /\ count <= Limit
@@ -144,12 +147,12 @@ Enter == /\ exc = "none" /\ HasPending /\ ~IsText(Pending) /\ count <= Limit
          /\ stack' = Append(Advanced, NewFrame(Pending))
          /\ count' = count + 1 /\ started' = TRUE
          /\ log' = IF Pending.k = "item" /\ IsCall(Pending.it) THEN Append(log, <<Callee(Pending.it), count + 1>>) ELSE log
-         /\ UNCHANGED <<univ, page, exc, escaped>>
+         /\ UNCHANGED <<univ, page, exc, escaped, capped>>
 
 \* flatten(node) above the limit
 Raise == /\ exc = "none" /\ HasPending /\ ~IsText(Pending) /\ count > Limit
          /\ exc' = "rec" /\ stack' = Advanced /\ started' = TRUE
-         /\ UNCHANGED <<univ, page, count, bufs, log, escaped>>
+         /\ UNCHANGED <<univ, page, count, bufs, log, escaped, capped>>
 
 \* a parameter: its binding, else the literal {{{1}}}
 ParamOut == /\ exc = "none" /\ started /\ stack # <<>> /\ Top.k = "param" /\ Top.st = 0 /\ ~NeedsEval
@@ -157,13 +160,13 @@ ParamOut == /\ exc = "none" /\ started /\ stack # <<>> /\ Top.k = "param" /\ Top
                                       [] Binding(Top.env) = "dbl"   -> stack[Top.env].val
                                       [] OTHER -> <<"P">>)
             /\ stack' = Append(Below, [Top EXCEPT !.st = 1])
-            /\ UNCHANGED <<univ, page, count, exc, log, started, escaped>>
+            /\ UNCHANGED <<univ, page, count, exc, log, started, escaped, capped>>
 
 Complete == /\ started /\ stack # <<>> /\ ~HasPending
             /\ (Top.k = "param" => Top.st = 1)
 Leave == /\ exc = "none" /\ Complete /\ Top.forarg = 0
          /\ stack' = Below /\ count' = count - 1
-         /\ UNCHANGED <<univ, page, bufs, exc, log, started, escaped>>
+         /\ UNCHANGED <<univ, page, bufs, exc, log, started, escaped, capped>>
 
 \* the argument has been flattened: within the cap it is cached in the call frame and handed to
 \* the waiting parameter, beyond the cap ArgumentList.get raises MemoryLimitError
@@ -181,6 +184,7 @@ LeaveArg == /\ exc = "none" /\ Complete /\ Top.forarg # 0
                        /\ stack' = [i \in 1..p |-> IF i = c THEN [stack[i] EXCEPT !.cached = TRUE, !.val = v]
                                                    ELSE IF i = p THEN [stack[i] EXCEPT !.st = 1]
                                                    ELSE stack[i]]
+            /\ capped' = (capped \/ (CapByName /\ Size(bufs[Top.buf]) > Cap))
             /\ UNCHANGED <<univ, page, log, started, escaped>>
 
 PopBufs == IF Top.forarg # 0 THEN SubSeq(bufs, 1, Len(bufs) - 1) ELSE bufs
@@ -189,31 +193,31 @@ PopBufs == IF Top.forarg # 0 THEN SubSeq(bufs, 1, Len(bufs) - 1) ELSE bufs
 Unwind == /\ exc = "rec" /\ stack # <<>> /\ count > SwallowDepth
           /\ stack' = Below /\ bufs' = PopBufs
           /\ count' = IF Decrement THEN count - 1 ELSE count
-          /\ UNCHANGED <<univ, page, exc, log, started, escaped>>
+          /\ UNCHANGED <<univ, page, exc, log, started, escaped, capped>>
 
 \* at depth <= SwallowDepth the frame drops its output and returns normally
 Swallow == /\ exc = "rec" /\ stack # <<>> /\ count <= SwallowDepth
            /\ bufs' = [PopBufs EXCEPT ![Top.buf] = SubSeq(@, 1, Top.mark)]
            /\ exc' = "none"
            /\ stack' = Below /\ count' = count - 1
-           /\ UNCHANGED <<univ, page, log, started, escaped>>
+           /\ UNCHANGED <<univ, page, log, started, escaped, capped>>
 
 \* MemoryLimitError passes every frame that is not a template call ...
 UnwindMem == /\ exc = "mem" /\ stack # <<>> /\ Top.k # "call"
              /\ stack' = Below /\ bufs' = PopBufs /\ count' = count - 1
-             /\ UNCHANGED <<univ, page, exc, log, started, escaped>>
+             /\ UNCHANGED <<univ, page, exc, log, started, escaped, capped>>
 
 \* ... and the enclosing template call reports it inline and returns normally
 CatchMem == /\ exc = "mem" /\ stack # <<>> /\ Top.k = "call"
             /\ bufs' = Put(Top.buf, <<"E">>)
             /\ stack' = Append(Below, [Top EXCEPT !.st = 1])
             /\ exc' = "none"
-            /\ UNCHANGED <<univ, page, count, log, started, escaped>>
+            /\ UNCHANGED <<univ, page, count, log, started, escaped, capped>>
 
 \* an exception leaves expandTemplates (must be unreachable)
 Escape == /\ exc # "none" /\ stack = <<>> /\ ~escaped
           /\ escaped' = TRUE
-          /\ UNCHANGED <<univ, page, stack, count, bufs, exc, log, started>>
+          /\ UNCHANGED <<univ, page, stack, count, bufs, exc, log, started, capped>>
 
 Finished == started /\ stack = <<>> /\ exc = "none"
 Next == Text \/ Enter \/ Raise \/ ParamOut \/ Leave \/ LeaveArg \/ Unwind \/ Swallow \/ UnwindMem \/ CatchMem \/ Escape
@@ -236,5 +240,5 @@ CounterRestored == Finished => count = 0 /\ Len(bufs) = 1
 
 EmitRun ==
   (Emit /\ Finished) =>
-    PrintT("@@" \o ToJson([univ |-> univ, page |-> page, limit |-> Limit, out |-> bufs[1], log |-> log]))
+    PrintT("@@" \o ToJson([univ |-> univ, page |-> page, limit |-> Limit, out |-> bufs[1], log |-> log, capped |-> capped]))
 =============================================================================
